@@ -683,6 +683,143 @@ def enumvals_cases(rng, tier):
     return cases
 
 
+# ------------------------------------------------------------------ shared ancestors (diamonds; C3 linearisation)
+
+DIAMOND_SHAPES = [
+    [("A", []), ("B", ["A"]), ("C", ["A"]), ("D", ["B", "C"])],
+    [("A", []), ("B", ["A"]), ("C", ["A"]), ("D", ["B", "C"]), ("E", ["D"])],
+    [("A", []), ("B", ["A"]), ("C", ["A"]), ("D", ["C", "B"]), ("E", ["D", "A"])],
+    [("A", []), ("A2", []), ("B", ["A", "A2"]), ("C", ["A2"]), ("D", ["B", "C"])],
+    [("A", []), ("B", ["A"]), ("C", ["B"]), ("D", ["B"]), ("E", ["C", "D"])],
+    [("A", []), ("B", ["A"]), ("C", ["A"]), ("D", ["A"]), ("E", ["B", "C", "D"])],
+]
+
+
+def diamond_cases(rng, tier):
+    """hierarchies with a shared Structure ancestor: own fields in every form, overriding along one branch,
+    flags on any class; plus the fixed family in which one branch redeclares an ancestor's Constant as a Field"""
+    cases = []
+    st = lambda name, bases, fields, **kw: dict({"kind": "struct", "name": name, "style": "annot",
+                                                "bases": [{"b": "cls", "name": b} for b in bases] or [{"b": "Structure"}],
+                                                "fields": fields}, **kw)
+    # the constant-shadowing family (finding names-mismatch:constant-shadowed-in-diamond)
+    for zform in ("req", "opt"):
+        items = [st("Y", [], [{"name": "n", "const": "3", "ty": ["Anything"]}, {"name": "y", "ty": ["Integer"]}]),
+                 st("P", ["Y"], [{"name": "p", "ty": ["Integer"]}]),
+                 st("Z", ["Y"], [{"name": "n", "ty": ["String"]}, {"name": "z", "ty": ["Integer"]}],
+                    **({"optional": ["n"]} if zform == "opt" else {})),
+                 st("B", ["P", "Z"], [{"name": "b", "ty": ["Integer"]}]),
+                 st("D", ["B"], [{"name": "d", "ty": ["Integer"]}]),
+                 st("D2", ["B"], [{"name": "d", "ty": ["Integer"]}], addl=False)]
+        cases.append({"suite": "stub", "mod": {"items": items}, "apd": True, "dflt": True, "seeds": [],
+                      "diamond": "constant-shadowed:" + zform})
+    n = 45 if tier == "quick" else 700
+    pool = [x for x in NAMES if x not in ("source_object", "ignore_props", "kw", "cls_", "self_")]
+    for k in range(n):
+        shape = rng.choice(DIAMOND_SHAPES)
+        names = rng.sample(pool, len(pool))
+        info = {}       # class -> {field: form} as inherited view (first base wins, own overrides)
+        items = []
+        for cname, bases in shape:
+            inherited = {}
+            for b in bases:
+                for fn, form in info[b].items():
+                    inherited.setdefault(fn, form)
+            fields, optional, required = [], [], None
+            for _ in range(rng.choice([0, 1, 1, 2, 2, 3]) if bases else rng.choice([1, 2, 3])):
+                fn = names.pop()
+                form = rng.choice(["req", "req", "opt", "dflt", "const", "typing-opt", "optshape"])
+                f = {"name": fn, "ty": [rng.choice(["String", "Integer", "Float", "Boolean"])]}
+                if form == "const":
+                    f = {"name": fn, "const": rng.choice(["3", "'c'", "0"]), "ty": ["Anything"]}
+                elif form == "dflt":
+                    f["default"] = {"String": "'d'", "Integer": "5", "Float": "2.5", "Boolean": "False"}[f["ty"][0]]
+                elif form == "opt":
+                    optional.append(fn)
+                elif form == "typing-opt":
+                    f["ty"] = ["pyopt", ["py", "int"]]
+                elif form == "optshape":
+                    f["ty"] = ["AnyOf", f["ty"], ["None"]]
+                    form = "req"
+                fields.append(f)
+                inherited[fn] = form
+            ov = [fn for fn, form in inherited.items() if form in ("req", "opt") and fn not in [f["name"] for f in fields]]
+            if bases and ov and rng.random() < 0.45:
+                fn = rng.choice(sorted(ov))
+                fields.append({"name": fn, "ty": [rng.choice(["String", "Integer"])]})
+                if inherited[fn] == "opt" and rng.random() < 0.5:
+                    optional.append(fn)
+                else:
+                    inherited[fn] = "req"
+            it = st(cname, bases, fields)
+            if optional:
+                it["optional"] = optional
+            elif fields and rng.random() < 0.2:
+                plain = [f["name"] for f in fields if f.get("const") is None and f.get("default") is None
+                         and f["ty"][0] != "pyopt"]
+                it["required"] = [x for x in plain if rng.random() < 0.6]
+                for x in plain:
+                    if x not in it["required"] and inherited.get(x) == "req" and x in ov:
+                        it["required"].append(x)
+            if rng.random() < 0.3:
+                it["addl"] = rng.random() < 0.5
+            info[cname] = inherited
+            items.append(it)
+        apd = rng.random() < 0.7
+        cases.append({"suite": "stub", "mod": {"items": items}, "apd": apd, "dflt": apd, "seeds": [],
+                      "diamond": "shape%d" % DIAMOND_SHAPES.index(shape)})
+    return cases
+
+
+# ------------------------------------------------------------------ stub default != runtime default; inherited __init__
+
+def apd_cases(rng, tier):
+    """the stub generated with another additional_properties_default than the runtime's: chains in which the flag is
+    declared on the class, only on a base, or nowhere (there the `**` clause is `apd` by configuration)"""
+    st = lambda name, bases, fields, **kw: dict({"kind": "struct", "name": name, "style": "annot",
+                                                "bases": [{"b": "cls", "name": b} for b in bases] or [{"b": "Structure"}],
+                                                "fields": fields}, **kw)
+    cases = []
+    for dflt in (True, False):
+        for flag in (True, False):
+            items = [st("N0", [], [{"name": "a", "ty": ["String"]}]),
+                     st("N1", ["N0"], [{"name": "b", "ty": ["Integer"], "default": "1"}]),
+                     st("F0", [], [{"name": "a", "ty": ["String"]}], addl=flag),
+                     st("F1", ["F0"], [{"name": "b", "ty": ["Integer"]}], optional=["b"]),
+                     st("F2", ["F1"], [{"name": "c", "ty": ["String"]}], addl=not flag),
+                     st("F3", ["F2", "N0"] if False else ["F2"], [])]
+            cases.append({"suite": "stub", "mod": {"items": items}, "apd": not dflt, "dflt": dflt, "seeds": [],
+                          "family": "apd-differs"})
+    for k in range(6 if tier == "quick" else 60):
+        spec = ModGen(rng, tier).module(k)
+        dflt = rng.random() < 0.5
+        cases.append({"suite": "stub", "mod": spec, "apd": not dflt, "dflt": dflt, "seeds": [], "family": "apd-differs"})
+    return cases
+
+
+def inh_init_cases(rng, tier):
+    """subclasses of a Structure class with a user-written __init__ (the stub generates a field-based __init__ for
+    them; compared with inspect.signature(cls))"""
+    st = lambda name, bases, fields, **kw: dict({"kind": "struct", "name": name, "style": "annot",
+                                                "bases": [{"b": "cls", "name": b} for b in bases] or [{"b": "Structure"}],
+                                                "fields": fields}, **kw)
+    cases = []
+    for kw in (False, True):
+        for extra in (False, True):
+            ci = {"params": [["a", None], ["o", "None"]] + ([["extra_flag", "None"]] if extra else []),
+                  "forward": ["a", "o"], "kw": kw}
+            items = [st("IB", [], [{"name": "a", "ty": ["Integer"]}, {"name": "o", "ty": ["String"]}], optional=["o"],
+                        custom_init=ci),
+                     st("IS", ["IB"], [{"name": "b", "ty": ["String"]}]),
+                     st("IE", ["IB"], []),
+                     st("IT", ["IS"], [{"name": "c", "ty": ["Integer"], "default": "3"}], addl=False),
+                     st("IO", ["IB"], [{"name": "x", "ty": ["Integer"]}],
+                        custom_init={"params": [["a", None], ["x", "None"]], "forward": ["a"], "kw": False})]
+            cases.append({"suite": "stub", "mod": {"items": items}, "apd": True, "dflt": True, "seeds": [],
+                          "family": "inherited-custom-init"})
+    return cases
+
+
 # ------------------------------------------------------------------ two bases declaring the same field name
 
 MI_KINDS = ["req", "opt", "dflt", "const"]
@@ -1059,10 +1196,11 @@ def dump_hierarchy(mod, spec_by_name):
         return index[id(cls)]
 
     targets = []
+    nontree = []
     for name, it in spec_by_name.items():
         cls = getattr(mod, name)
         i = visit(cls)
-        # tree-shaped hierarchy only (the model's MRO is the depth-first pre-order)
+        # tree-shaped hierarchy: the tree model's MRO is the depth-first pre-order
         seen = []
 
         def walk(j):
@@ -1071,8 +1209,9 @@ def dump_hierarchy(mod, spec_by_name):
                 walk(b)
         walk(i)
         if len(seen) != len(set(seen)):
-            raise Unsupported(f"{name}: shared ancestor (diamond)")
+            nontree.append(i)       # shared ancestor: only the Define-based model (C3 linearisation) applies
         targets.append(i)
+    dump_hierarchy.nontree = nontree
     return table, targets
 
 
@@ -1101,6 +1240,11 @@ def runtime_view(mod, cls, it, spec_by_name):
         view["guard"] = None
     custom = "__init__" in cls.__dict__
     view["custom"] = custom
+    # a user-written __init__ further up the MRO: the constructor's behaviour is that function's business; the stub
+    # is compared with inspect.signature(cls) only
+    inherits_custom = any("__init__" in k.__dict__ for k in cls.__mro__[1:]
+                          if isinstance(k, type(Structure)) and k.__module__ == cls.__module__)
+    view["inherits_custom"] = inherits_custom
     if custom:
         fs = inspect.signature(cls.__dict__["__init__"])
         ps = list(fs.parameters.values())[1:]
@@ -1111,7 +1255,7 @@ def runtime_view(mod, cls, it, spec_by_name):
             "vararg": any(p.kind == p.VAR_POSITIONAL for p in ps), "kw": any(p.kind == p.VAR_KEYWORD for p in ps)}
     # behaviour of the real constructor: valid kwargs, then one missing / one extra
     view["behav"] = None
-    if not custom:
+    if not custom and not inherits_custom:
         try:
             kw = build_kwargs(mod, cls)
         except Exception as e:
@@ -1242,16 +1386,12 @@ def run_impl(case):
         try:
             table, targets = dump_hierarchy(mod, spec_by_name)
             res["table"], res["targets"] = table, targets
+            res["nontree"] = list(dump_hierarchy.nontree)
         except Unsupported as e:
             res["unsupported"] = str(e)
             return res
         res["abstraction"] = check_abstraction(mod, spec_by_name)
         res["runtime"] = {n: runtime_view(mod, getattr(mod, n), it, spec_by_name) for n, it in spec_by_name.items()}
-        if text is not None:
-            try:
-                res["text"] = text_view(case, mod, text, spec_by_name, targets, res["runtime"], "stub" in res)
-            except Exception as e:      # the tie itself must not break a run: reported as a correspondence message
-                res["text_err"] = f"{type(e).__name__}: {e}"[:300]
         res["enums_iter"] = {it["name"]: [m.name for m in getattr(mod, it["name"])]
                              for it in case["mod"]["items"] if it["kind"] == "enum"}
         res["enums"] = {it["name"]: list(getattr(mod, it["name"]).__members__)
@@ -1275,6 +1415,11 @@ def run_impl(case):
                     if mn in c.__dict__ and inspect.isfunction(c.__dict__[mn]):
                         sigs[f"{it['name']}.{mn}"] = full_params_runtime(c.__dict__[mn])
         res["sigs"] = sigs
+        if text is not None:
+            try:
+                res["text"] = text_view(case, mod, text, spec_by_name, targets, res["runtime"], "stub" in res, sigs)
+            except Exception as e:      # the tie itself must not break a run: reported as a correspondence message
+                res["text_err"] = f"{type(e).__name__}: {e}"[:300]
     finally:
         TypedPyDefaults.additional_properties_default = saved_default
         sys.path[:] = saved_path
@@ -1600,7 +1745,7 @@ def mutate_header(rng, header):
     return op, " ".join(out)
 
 
-def text_view(case, mod, text, spec_by_name, targets, runtime, parsed_ok):
+def text_view(case, mod, text, spec_by_name, targets, runtime, parsed_ok, sigs=None):
     """what goes to the Lean driver (`wire`) and CPython's own verdicts on the same header texts (`py`)"""
     defs, classes = scan_headers(text)
     key = case_key(case)
@@ -1673,6 +1818,45 @@ def text_view(case, mod, text, spec_by_name, targets, runtime, parsed_ok):
         entry["attrs"] = [[st.target.id, seg(st)] for st in node.body
                           if isinstance(st, ast.AnnAssign) and isinstance(st.target, ast.Name) and st.target.id in names]
         wire["classes"].append(entry)
+    # methods / functions the generator re-renders from inspect.signature: the runtime kinds, with the annotation
+    # and default expressions read off the stub (the marker placement `/`, `*` is what the model decides)
+    wire["meths"], py["meths"] = [], []
+    fnodes = {("", n.name): [n] for n in tree.body if isinstance(n, ast.FunctionDef)}
+    for cn, cnode in nodes.items():
+        for st in cnode.body:
+            if isinstance(st, ast.FunctionDef):
+                fnodes.setdefault((cn, st.name), []).append(st)
+    for qn, rt in sorted((sigs or {}).items()):
+        owner, fname = qn.split(".", 1)
+        ns = fnodes.get((owner, fname), [])
+        if isinstance(rt, str) or len(ns) != 1:
+            continue
+        fn = ns[0]
+        a = fn.args
+        pos = list(a.posonlyargs) + list(a.args)
+        dfl = [None] * (len(pos) - len(a.defaults)) + list(a.defaults)
+        by_name = {p.arg: (p.annotation, d) for p, d in zip(pos, dfl)}
+        by_name.update({p.arg: (p.annotation, d) for p, d in zip(a.kwonlyargs, a.kw_defaults)})
+        for p in (a.vararg, a.kwarg):
+            if p is not None:
+                by_name[p.arg] = (p.annotation, None)
+        ps, ok = [], True
+        for n, k, _d in rt:
+            if n not in by_name:
+                ok = False
+                break
+            an, d = by_name[n]
+            aj = None if an is None else ann_of_ast(an)
+            dj = None if d is None else ann_of_ast(d)
+            if (an is not None and aj is None) or (d is not None and dj is None):
+                ok = False
+                break
+            ps.append([n, k, aj, dj])
+        rj = None if fn.returns is None else ann_of_ast(fn.returns)
+        if not ok or (fn.returns is not None and rj is None):
+            continue
+        wire["meths"].append({"name": fname, "text": seg(fn), "ps": ps, "ret": rj})
+        py["meths"].append(qn)
     return {"wire": wire, "py": py}
 
 
@@ -1683,6 +1867,7 @@ def line(case, impl):
     if "table" in impl:
         l["classes"] = [{k: v for k, v in d.items() if k != "generated"} for d in impl["table"]]
         l["targets"] = impl["targets"]
+        l["nontree"] = impl.get("nontree", [])
     ex = impl.get("extra_imports")
     if ex and all(x.startswith("from ") and " import " in x for x in ex):
         # the (name, module) items, handed to the model in reverse order and doubled (a set has no order/multiplicity)
@@ -1711,6 +1896,13 @@ def tags(case, impl, model):
         out.append("multi-base-same-field:" + case["mi"])
     if case.get("enumvals"):
         out.append("enum-values:" + case["enumvals"])
+    if case.get("diamond"):
+        out.append("diamond:" + case["diamond"])
+    if case.get("family"):
+        out.append("family:" + case["family"])
+    if case["apd"] != case["dflt"]:
+        out.append("apd!=runtime-default")
+    out += ["hierarchy:shared-ancestor"] * len(impl.get("nontree", []))
     if case.get("sig_site"):
         out += [f"sig-site:{case['sig_site']}", f"sig-default:{case['sig_default']}"]
     if "unbuildable" in impl:
@@ -1758,6 +1950,7 @@ def tags(case, impl, model):
         for c in mt["classes"]:
             out.append("text-tie:" + ("class" if c["domain"] else "outside-domain"))
         out += ["text-tie:skipped(annotation-language)" for n in tp["skipped"] if n != "*"]
+        out += ["text-tie:method" for _ in mt.get("meths", [])]
     return out
 
 
